@@ -60,7 +60,13 @@ var stubDirective = regexp.MustCompile(`(?m)^//vsym:stub\s+(\S+)\s*=\s*(\S+)\s*$
 func LoadProgram(repoDir string, overlay map[string]string, patterns []string) (*Program, error) {
 	ov := map[string][]byte{}
 	stubs := map[string]string{}
-	for virt, real := range overlay {
+	var virts []string
+	for virt := range overlay {
+		virts = append(virts, virt)
+	}
+	sort.Strings(virts) // two files stubbing one function: the choice must not depend on map order
+	for _, virt := range virts {
+		real := overlay[virt]
 		b, err := os.ReadFile(real)
 		if err != nil {
 			return nil, err
